@@ -832,8 +832,8 @@ impl JsonValueMutTrait for Value {
     where
         P::Item: Index,
     {
-        let mut path = path.into_iter();
-        let mut value = self.get_mut(path.next().unwrap())?;
+        // the empty path addresses the value itself, as in `pointer`
+        let mut value = self;
         for index in path {
             value = value.get_mut(index)?;
         }
